@@ -4,6 +4,7 @@
    (c) the destination filters of core/types/transaction.go (FilterToSub/FilterToLocation).
    Definitions only; proofs are in Proofs/C04*.v. *)
 From Coq Require Import List NArith Bool.
+From Coq Require String.
 From GQ Require Import Lib.Key Lib.SMap Lib.C04_BigEndian Lib.C04_Expr.
 Import ListNotations.
 Local Open Scope N_scope.
@@ -265,6 +266,220 @@ Fixpoint ns_eqb (a b : list N) : bool :=
   | _, _ => false
   end.
 
+(* ------------------------------------------------------------------ (d) routing across region blocks *)
+
+(* The hand-down of ETXs by a dominant node (core/slice.go:CollectNewlyConfirmedEtxs,
+   core/headerchain.go:CollectSubRollup, and the glue of Slice.Append that uses them), as seen by a
+   node of context ctx = REGION_CTX (blocks = region blocks, pending = the ETXs each zone block emitted)
+   or ctx = PRIME_CTX (blocks = prime blocks, pending = the rollup each region block sent up).
+   Hashes are names (N).  An ETX is (name of its hash, first byte
+   of the destination address, ETX type). *)
+Definition retx := (N * N * N)%type.
+Definition retx_id (e : retx) : N := fst (fst e).
+Definition retx_tx (e : retx) : N * N := (snd (fst e), snd e).
+
+(* a region block: hash, parent hash, location of the zone that produced it, order (CalcOrder),
+   expansion number, manifest (hashes of the zone blocks since the previous coincident block of that
+   zone), inbound ETX set stored for it (rawdb.WriteInboundEtxs: what prime handed down with it) *)
+Record rblock := mkRB {
+  rb_hash : N; rb_parent : N; rb_loc : list N; rb_order : N; rb_exp : N;
+  rb_manifest : list N; rb_inbound : list retx }.
+
+(* what a region node holds: genesis hashes, blocks by hash (GetBlock), pending ETXs by zone block
+   hash (GetPendingEtxs: what each zone block emitted) *)
+Record rworld := mkRW {
+  rw_genesis : list N;
+  rw_blocks : list rblock;
+  rw_pending : list (N * list retx) }.
+
+Definition lookup_block (w : rworld) (h : N) : option rblock :=
+  find (fun b => rb_hash b =? h) (rw_blocks w).
+Definition lookup_pending (w : rworld) (h : N) : option (list retx) :=
+  option_map snd (find (fun p => fst p =? h) (rw_pending w)).
+Definition is_genesis (w : rworld) (h : N) : bool := existsb (N.eqb h) (rw_genesis w).
+
+(* headerchain.go:CollectSubRollup (region branch): concatenation, in manifest order, of the pending
+   ETXs of every hash of the manifest; one of them unknown => ErrPendingEtxNotFound *)
+Fixpoint sub_rollup (w : rworld) (m : list N) : option (list retx) :=
+  match m with
+  | [] => Some []
+  | h :: m' =>
+      match lookup_pending w h with
+      | None => None
+      | Some l => match sub_rollup w m' with None => None | Some r => Some (l ++ r) end
+      end
+  end.
+
+(* common/types.go:GetHierarchySizeForExpansionNumber, same recursion *)
+Fixpoint hierarchy_size_nat (e : nat) : N * N :=
+  match e with
+  | O => (1, 1)
+  | S e' =>
+      match e' with
+      | O => (1, 2)
+      | S _ => let '(r, z) := hierarchy_size_nat e' in
+               if Nat.even e then (r + 1, z) else (r, z + 1)
+      end
+  end.
+Definition hierarchy_size (e : N) : N * N := hierarchy_size_nat (N.to_nat e).
+
+(* Location.Region()/Zone() are -1 when absent *)
+Definition opt_gt (o : option N) (n : N) : bool :=
+  match o with Some x => n <? x | None => false end.
+Definition opt_eq_int (a b : option N) : bool :=
+  match a, b with
+  | Some x, Some y => x =? y
+  | None, None => true
+  | _, _ => false
+  end.
+(* the zone named by loc is outside the hierarchy of expansion number e *)
+Definition not_active (e : N) (loc : list N) : bool :=
+  let '(regions, zones) := hierarchy_size e in
+  opt_gt (nth_error loc 0) regions || opt_gt (nth_error loc 1) zones.
+(* a.SubIndex(ctx) == b.SubIndex(ctx): Region() for prime, Zone() for a region, -1 otherwise *)
+Definition same_sub (ctx : N) (a b : list N) : bool :=
+  if ctx =? PRIME_CTX then opt_eq_int (nth_error a 0) (nth_error b 0)
+  else if ctx =? REGION_CTX then opt_eq_int (nth_error a 1) (nth_error b 1)
+  else true.
+
+(* Transactions.FilterToSub(loc, ctx, order) on a list *)
+Definition sel (ctx : N) (loc : list N) (order : N) (l : list retx) : list retx :=
+  filter (fun e => filter_to_sub loc ctx order (retx_tx e)) l.
+
+Inductive rres :=
+| ROk (l : list retx)
+| RErrParent            (* "unable to find parent" *)
+| RErrPending           (* ErrPendingEtxNotFound *)
+| RFuel.                (* the walk did not end within the number of stored blocks (cyclic store) *)
+
+(* what the walk of CollectNewlyConfirmedEtxs does with one ancestor p, for a block of location loc
+   queried at order border: stop, or add the roll-down of p's prime inbound set and p's sub rollup *)
+Definition walk_stops (ctx : N) (loc : list N) (p : rblock) : bool :=
+  ((rb_order p =? PRIME_CTX) && not_active (rb_exp p) loc)
+  || (same_sub ctx (rb_loc p) loc && (rb_order p =? ctx)).
+(* "if nodeCtx == common.REGION_CTX && order < nodeCtx && !blockLocation.Equal(parent.Location())" *)
+Definition rolldown (ctx : N) (loc : list N) (p : rblock) : list retx :=
+  if (ctx =? REGION_CTX) && (rb_order p <? ctx) && negb (keqb loc (rb_loc p))
+  then sel ctx loc PRIME_CTX (rb_inbound p) else [].
+
+(* slice.go:CollectNewlyConfirmedEtxs, the loop; cur is `block`, acc is newlyConfirmedEtxs *)
+Fixpoint nc_walk (fuel : nat) (w : rworld) (ctx : N) (loc : list N) (border : N) (cur : rblock) (acc : list retx) : rres :=
+  match fuel with
+  | O => RFuel
+  | S f =>
+      match lookup_block w (rb_parent cur) with
+      | None => RErrParent
+      | Some p =>
+          if is_genesis w (rb_parent cur) then ROk acc
+          else if walk_stops ctx loc p then ROk acc
+          else match sub_rollup w (rb_manifest p) with
+               | None => RErrPending
+               | Some roll => nc_walk f w ctx loc border p (acc ++ rolldown ctx loc p ++ sel ctx loc border roll)
+               end
+      end
+  end.
+
+Definition newly_confirmed (w : rworld) (ctx : N) (b : rblock) (border : N) : rres :=
+  match sub_rollup w (rb_manifest b) with
+  | None => RErrPending
+  | Some roll => nc_walk (S (length (rw_blocks w))) w ctx (rb_loc b) border b (sel ctx (rb_loc b) border roll)
+  end.
+
+(* slice.go:Append: in a region, a block of dominant order hands to its zone the ETXs received from
+   prime, filtered; otherwise (a region-order block in a region, every block in prime) the newly
+   confirmed ETXs are handed down *)
+Definition handed_down (w : rworld) (ctx : N) (b : rblock) : rres :=
+  if rb_order b <? ctx then ROk (sel ctx (rb_loc b) (rb_order b) (rb_inbound b))
+  else newly_confirmed w ctx b (rb_order b).
+
+(* slice.go:Append (region node): what is sent up to prime of a sub rollup: everything that leaves
+   the region, and every conversion / coinbase ETX *)
+Definition goes_to_prime (region : N) (e : retx) : bool :=
+  let '(p, ty) := retx_tx e in
+  negb (p / 16 =? region) || (ty =? ETX_CONVERSION) || (ty =? ETX_COINBASE).
+
+(* slice.go:GetPendingEtxsRollupFromSub (region branch): what the region answers when prime asks again
+   for the rollup of a block -- the whole sub rollup, NOT filtered by goes_to_prime (as the code is) *)
+Definition rollup_for_dom (w : rworld) (b : rblock) : option (list retx) := sub_rollup w (rb_manifest b).
+(* what the header's EtxRollupHash commits to (Append checks DeriveSha(crossPrimeRollup) against it) and
+   what prime therefore accepts (PendingEtxsRollup.IsValid) *)
+Definition committed_rollup (w : rworld) (region : N) (b : rblock) : option (list retx) :=
+  option_map (filter (goes_to_prime region)) (sub_rollup w (rb_manifest b)).
+
+(* The statements of Slice.Append (outside its prime-only branches) the two definitions above were
+   written against, in the canonical form produced by harness/gen/c04sites ("guards => statement").
+   handed_down: lines 1-2 (a block of dominant order: store what the dominant chain sent, hand down its
+   FilterToSub(block.Location(), nodeCtx, order)), line 4 (otherwise, when the block does not come from
+   the dominant chain: CollectNewlyConfirmedEtxs(block, order); line 3/5: a memo of that result per block
+   hash), line 7 (the set goes to the subordinate's Append unchanged).  goes_to_prime: lines 9-12 (the
+   rollup sent up is the sub rollup filtered by destination region / conversion / coinbase), lines 13-14
+   (it must hash to the header's EtxRollupHash), lines 15-16 (it is what prime receives). *)
+Module C04Glue.
+Import String.
+Definition append_glue_model : list String.string := [
+  "order < nodeCtx => rawdb.WriteInboundEtxs(sl.sliceDb, block.Hash(), newInboundEtxs)";
+  "order < nodeCtx; nodeCtx == common.REGION_CTX => newInboundEtxs = newInboundEtxs.FilterToSub(block.Location(), nodeCtx, order)";
+  "!domOrigin && nodeCtx != common.ZONE_CTX; exists && cachedInboundEtxs != nil && nodeCtx != common.PRIME_CTX => newInboundEtxs = cachedInboundEtxs";
+  "!domOrigin && nodeCtx != common.ZONE_CTX; !(exists && cachedInboundEtxs != nil && nodeCtx != common.PRIME_CTX) => newInboundEtxs, err = sl.CollectNewlyConfirmedEtxs(block, order)";
+  "!domOrigin && nodeCtx != common.ZONE_CTX; !(exists && cachedInboundEtxs != nil && nodeCtx != common.PRIME_CTX); !(nodeCtx == common.PRIME_CTX) => sl.inboundEtxsCache.Add(block.Hash(), newInboundEtxs)";
+  " => var subPendingEtxs types.Transactions";
+  "nodeCtx != common.ZONE_CTX; sl.subInterface[location.SubIndex(sl.NodeCtx())] != nil => subPendingEtxs, err = sl.subInterface[location.SubIndex(sl.NodeCtx())].Append(header, block.Manifest(), domTerminus, true, newInboundEtxs)";
+  "nodeCtx != common.ZONE_CTX; sl.subInterface[location.SubIndex(sl.NodeCtx())] != nil => pEtxs := types.PendingEtxs{Header: header.ConvertToPEtxView(), OutboundEtxs: subPendingEtxs}";
+  "nodeCtx != common.ZONE_CTX; sl.subInterface[location.SubIndex(sl.NodeCtx())] != nil; nodeCtx == common.REGION_CTX => crossPrimeRollup := types.Transactions{}";
+  "nodeCtx != common.ZONE_CTX; sl.subInterface[location.SubIndex(sl.NodeCtx())] != nil; nodeCtx == common.REGION_CTX => subRollup, err := sl.hc.CollectSubRollup(block)";
+  "nodeCtx != common.ZONE_CTX; sl.subInterface[location.SubIndex(sl.NodeCtx())] != nil; nodeCtx == common.REGION_CTX; range subRollup => to := etx.To().Location()";
+  "nodeCtx != common.ZONE_CTX; sl.subInterface[location.SubIndex(sl.NodeCtx())] != nil; nodeCtx == common.REGION_CTX; range subRollup; to.Region() != sl.NodeLocation().Region() || types.IsConversionTx(etx) || types.IsCoinBaseTx(etx) => crossPrimeRollup = append(crossPrimeRollup, etx)";
+  "nodeCtx != common.ZONE_CTX; sl.subInterface[location.SubIndex(sl.NodeCtx())] != nil; nodeCtx == common.REGION_CTX; nodeCtx == common.REGION_CTX => etxRollupHash := types.DeriveSha(crossPrimeRollup, trie.NewStackTrie(nil))";
+  "nodeCtx != common.ZONE_CTX; sl.subInterface[location.SubIndex(sl.NodeCtx())] != nil; nodeCtx == common.REGION_CTX; nodeCtx == common.REGION_CTX => if etxRollupHash != block.EtxRollupHash() -> return nil, errors.New(""sub rollup does not match sub rollup hash"")";
+  "nodeCtx != common.ZONE_CTX; sl.subInterface[location.SubIndex(sl.NodeCtx())] != nil; nodeCtx == common.REGION_CTX => pEtxRollup := types.PendingEtxsRollup{Header: header.ConvertToPEtxView(), EtxsRollup: crossPrimeRollup}";
+  "nodeCtx != common.ZONE_CTX; sl.subInterface[location.SubIndex(sl.NodeCtx())] != nil; nodeCtx == common.REGION_CTX => sl.AddPendingEtxsRollup(pEtxRollup)";
+  "!(nodeCtx == common.ZONE_CTX) => return subPendingEtxs, nil"
+]%string.
+End C04Glue.
+Definition append_glue_model : list String.string := C04Glue.append_glue_model.
+
+(* The same hand-down written over a chain given as a list, newest first (b :: anc: a block and its
+   ancestors down to, excluding, the genesis).  Proofs/C04_Hier.v shows that the walk over the store
+   computes exactly this on a tree-shaped store, and that it delivers every ETX exactly once. *)
+Definition roll_of (w : rworld) (p : rblock) : list retx :=
+  match sub_rollup w (rb_manifest p) with Some r => r | None => [] end.
+Definition contrib (w : rworld) (ctx : N) (loc : list N) (border : N) (p : rblock) : list retx :=
+  rolldown ctx loc p ++ sel ctx loc border (roll_of w p).
+Fixpoint collect_list (w : rworld) (ctx : N) (loc : list N) (border : N) (anc : list rblock) : list retx :=
+  match anc with
+  | [] => []
+  | p :: anc' => if walk_stops ctx loc p then [] else contrib w ctx loc border p ++ collect_list w ctx loc border anc'
+  end.
+(* what block b, whose ancestors are anc, hands to its subordinate chain *)
+Definition handed_list (w : rworld) (ctx : N) (b : rblock) (anc : list rblock) : list retx :=
+  if rb_order b <? ctx then sel ctx (rb_loc b) (rb_order b) (rb_inbound b)
+  else sel ctx (rb_loc b) (rb_order b) (roll_of w b) ++ collect_list w ctx (rb_loc b) (rb_order b) anc.
+(* everything a zone Z of this region is owed because of block b: what prime handed down with b for Z,
+   and the standard ETXs for Z in the rollup of the zone blocks b refers to *)
+Definition owed_by (w : rworld) (Z : list N) (b : rblock) : list retx :=
+  (if rb_order b <? REGION_CTX then sel REGION_CTX Z PRIME_CTX (rb_inbound b) else []) ++ sel REGION_CTX Z REGION_CTX (roll_of w b).
+(* along the chain (newest first), in chronological order: owed to Z, handed to zone Z, still pending *)
+Fixpoint owed (w : rworld) (Z : list N) (c : list rblock) : list retx :=
+  match c with [] => [] | b :: anc => owed w Z anc ++ owed_by w Z b end.
+Fixpoint delivered (w : rworld) (Z : list N) (c : list rblock) : list retx :=
+  match c with
+  | [] => []
+  | b :: anc => delivered w Z anc ++ (if keqb (rb_loc b) Z then handed_list w REGION_CTX b anc else [])
+  end.
+Definition pending_for (w : rworld) (Z : list N) (c : list rblock) : list retx := collect_list w REGION_CTX Z REGION_CTX c.
+
+(* the same three for the prime node and a region (named by any location Z of it): every ETX of a rollup
+   addressed to the region, of whatever type, is owed to it *)
+Definition owed_by_p (w : rworld) (Z : list N) (b : rblock) : list retx := sel PRIME_CTX Z PRIME_CTX (roll_of w b).
+Fixpoint owed_p (w : rworld) (Z : list N) (c : list rblock) : list retx :=
+  match c with [] => [] | b :: anc => owed_p w Z anc ++ owed_by_p w Z b end.
+Fixpoint delivered_p (w : rworld) (Z : list N) (c : list rblock) : list retx :=
+  match c with
+  | [] => []
+  | b :: anc => delivered_p w Z anc ++ (if same_sub PRIME_CTX (rb_loc b) Z then handed_list w PRIME_CTX b anc else [])
+  end.
+Definition pending_for_p (w : rworld) (Z : list N) (c : list rblock) : list retx := collect_list w PRIME_CTX Z PRIME_CTX c.
+
 (* ------------------------------------------------------------------ correspondence *)
 
 Definition oetx_eqb (a b : option etx) : bool :=
@@ -358,13 +573,32 @@ Inductive case :=
 | CL (id : N) (l : list N) (txs : list (N * N)) (sel : list bool)
 (* the same two on all_txs: observed = positions of the selected transactions *)
 | CRX (id : N) (slice : list N) (ctx order : N) (sel : list N)
-| CLX (id : N) (l : list N) (sel : list N).
+| CLX (id : N) (l : list N) (sel : list N)
+(* a region (ctx = 1) or prime (ctx = 0) node holding these blocks and pending ETX bundles / rollups: observed CollectSubRollup per block
+   (names of the ETXs, None = error) and CollectNewlyConfirmedEtxs per (block, order): class
+   (0 ok, 1 parent not found, 2 pending ETXs not found) and the names of the ETXs, in order *)
+| CH (id : N) (ctx : N) (gen : list N) (blocks : list rblock) (pend : list (N * list retx))
+     (rollq : list (N * option (list N))) (ncq : list (N * N * N * list N)).
 
 Definition case_id (c : case) : N :=
   match c with
   | CQ i _ _ => i | CB i _ _ _ _ _ _ _ _ _ => i | CR i _ _ _ _ _ => i | CL i _ _ _ => i
   | CC i _ _ _ _ _ _ => i | CV i _ _ _ _ _ _ _ => i
-  | CRX i _ _ _ _ => i | CLX i _ _ => i
+  | CRX i _ _ _ _ => i | CLX i _ _ => i | CH i _ _ _ _ _ _ => i
+  end.
+
+Definition rres_code (r : rres) : N * list N :=
+  match r with
+  | ROk l => (0, map retx_id l)
+  | RErrParent => (1, [])
+  | RErrPending => (2, [])
+  | RFuel => (7, [])
+  end.
+Definition onl_eqb (a b : option (list N)) : bool :=
+  match a, b with
+  | None, None => true
+  | Some x, Some y => ns_eqb x y
+  | _, _ => false
   end.
 
 Definition case_ok (c : case) : bool :=
@@ -385,6 +619,19 @@ Definition case_ok (c : case) : bool :=
   | CL _ l txs sel => bools_eqb (map (filter_to_location l) txs) sel
   | CRX _ slice ctx order sel => ns_eqb (selected_from (filter_to_sub slice ctx order) 0 all_txs) sel
   | CLX _ l sel => ns_eqb (selected_from (filter_to_location l) 0 all_txs) sel
+  | CH _ ctx gen blocks pend rollq ncq =>
+      let w := mkRW gen blocks pend in
+      forallb (fun q : N * option (list N) =>
+                 match lookup_block w (fst q) with
+                 | None => false
+                 | Some b => onl_eqb (option_map (map retx_id) (sub_rollup w (rb_manifest b))) (snd q)
+                 end) rollq
+      && forallb (fun q : N * N * N * list N =>
+                 let '(h, order, cls, ids) := q in
+                 match lookup_block w h with
+                 | None => false
+                 | Some b => let '(c, l) := rres_code (newly_confirmed w ctx b order) in (c =? cls) && ns_eqb l ids
+                 end) ncq
   end.
 
 Definition mismatches (cs : list case) : list N :=
